@@ -29,6 +29,14 @@ Proof.
 by move=> uS /(congr1 (mulmx^~ (invmx S))); rewrite -!mulmxA mulmxV // !mulmx1.
 Qed.
 
+Lemma invmx_mul (n : nat) (A B : 'M[F]_n) :
+  A \in unitmx -> B \in unitmx -> invmx (A *m B) = invmx B *m invmx A.
+Proof.
+move=> uA uB; have uAB : A *m B \in unitmx by rewrite unitmx_mul uA uB.
+rewrite -[RHS]mul1mx -(mulVmx uAB) -!mulmxA (mulmxA B) mulmxV // mul1mx.
+by rewrite mulmxV // mulmx1.
+Qed.
+
 End MxFacts.
 
 (* ------------------------------------------------------------------ *)
@@ -298,9 +306,298 @@ Proof.
 have uL := chol_unitL; split.
 - by rewrite correct_ret2_eq.
 - rewrite correct_ret2_eq correct_e_eq trmx_mul !mulmxA -chol_LLt.
-  by rewrite invmxM ?unitmx_tr // trmx_inv !mulmxA.
+  by rewrite invmx_mul ?unitmx_tr // trmx_inv !mulmxA.
 - by rewrite -chol_LLt mulmxA (mulVmx uL) mul1mx trmx_inv mulmxV ?unitmx_tr.
 - by split; [apply: chol_lower | apply: chol_LLt].
 Qed.
 
 End Correct.
+
+(* ------------------------------------------------------------------ *)
+(** * The generated [correct] (order-level statements) *)
+Section CorrectOrdered.
+Variable F : realFieldType.
+Variables n m : nat.
+Variable cholesky : 'M[F]_m -> 'M[F]_m.
+Variables (P : 'M[F]_n) (H : 'M[F]_(m, n)) (R : 'M[F]_m).
+
+(** (2b) The returned covariance is PSD for PSD P, R -- whatever the
+    Cholesky oracle returns (Joseph form, any gain). *)
+Theorem post_psd : psd P -> psd R -> psd (correct_ret1 cholesky P H R).
+Proof. by move=> pP pR; rewrite correct_ret1_joseph; apply: joseph_psd. Qed.
+
+(** S itself is PSD, so the Cholesky factorisation is asked of a PSD matrix. *)
+Lemma correct_S_psd : psd P -> psd R -> psd (correct_S P H R).
+Proof. by move=> pP pR; rewrite correct_S_eq; apply: innov_cov_psd. Qed.
+
+(** (2c) never larger than the prior *)
+Theorem post_le_prior :
+  P^T = P -> R^T = R -> cholesky_spec cholesky (correct_S P H R) ->
+  psd P -> psd R ->
+  P - correct_ret1 cholesky P H R
+     = gain P H R *m correct_S P H R *m (gain P H R)^T
+  /\ psd (P - correct_ret1 cholesky P H R).
+Proof.
+move=> sP sR cS pP pR; have uS := innov_unit cS.
+rewrite (correct_cov sP sR cS) correct_S_eq (prior_minus_post uS sP sR); split=> //.
+exact/psd_conj/innov_cov_psd.
+Qed.
+
+End CorrectOrdered.
+
+(* ------------------------------------------------------------------ *)
+(** * (5) Sequential processing of two measurement blocks = joint processing.
+      General case: P may be singular; only the innovation covariances that
+      the code factorises are required to be invertible.  The argument is the
+      uniqueness of the solution K of the normal equation K S = P H^T. *)
+Section SeqAbstract.
+Variable F : fieldType.
+Variables n m1 m2 : nat.
+Variables (x : 'cV[F]_n) (P : 'M[F]_n).
+Variables (z1 : 'cV[F]_m1) (H1 : 'M[F]_(m1, n)) (R1 : 'M[F]_m1).
+Variables (z2 : 'cV[F]_m2) (H2 : 'M[F]_(m2, n)) (R2 : 'M[F]_m2).
+
+Definition joint_z : 'cV[F]_(m1 + m2) := col_mx z1 z2.
+Definition joint_H : 'M[F]_(m1 + m2, n) := col_mx H1 H2.
+Definition joint_R : 'M[F]_(m1 + m2) := block_mx R1 0 0 R2.
+
+Local Notation z := joint_z.
+Local Notation H := joint_H.
+Local Notation R := joint_R.
+
+Lemma joint_R_sym : R1^T = R1 -> R2^T = R2 -> R^T = R.
+Proof. by move=> s1 s2; rewrite /joint_R tr_block_mx !trmx0 s1 s2. Qed.
+
+Lemma joint_innov_cov :
+  innov_cov P H R =
+  block_mx (innov_cov P H1 R1) (H1 *m P *m H2^T)
+           (H2 *m P *m H1^T)   (innov_cov P H2 R2).
+Proof.
+rewrite /innov_cov /joint_H /joint_R mul_col_mx tr_col_mx mul_col_row add_block_mx.
+by rewrite !addr0.
+Qed.
+
+(** Any pair of block gains solving the two block normal equations is the
+    joint gain. *)
+Section FromGains.
+Variables (Ka : 'M[F]_(n, m1)) (Kb : 'M[F]_(n, m2)).
+Hypothesis eq1 : Ka *m innov_cov P H1 R1 + Kb *m (H2 *m P *m H1^T) = P *m H1^T.
+Hypothesis eq2 : Ka *m (H1 *m P *m H2^T) + Kb *m innov_cov P H2 R2 = P *m H2^T.
+
+Lemma joint_normal_eq : row_mx Ka Kb *m innov_cov P H R = P *m H^T.
+Proof.
+by rewrite joint_innov_cov mul_row_block eq1 eq2 /joint_H tr_col_mx mul_mx_row.
+Qed.
+
+Hypothesis uS : innov_cov P H R \in unitmx.
+
+Lemma joint_gain : gain P H R = row_mx Ka Kb.
+Proof. by rewrite -(normal_eq_gain uS joint_normal_eq). Qed.
+
+Lemma joint_mean :
+  cond_mean x P z H R = x + Ka *m (z1 - H1 *m x) + Kb *m (z2 - H2 *m x).
+Proof.
+rewrite /cond_mean joint_gain /joint_z /joint_H mul_col_mx.
+by rewrite -[col_mx z1 z2 - _]/(col_mx z1 z2 + - col_mx _ _) opp_col_mx add_col_mx
+           mul_row_col addrA.
+Qed.
+
+Lemma joint_cov :
+  cond_cov P H R = P - Ka *m H1 *m P - Kb *m H2 *m P.
+Proof.
+by rewrite /cond_cov joint_gain /joint_H mul_row_col mulmxDl opprD addrA.
+Qed.
+
+End FromGains.
+
+(** Algebra of the two-stage update with abstract gains:
+     K1 solves the normal equation of block 1 for P,
+     P1 = P - K1 H1 P,
+     K2 solves the normal equation of block 2 for P1. *)
+Section TwoStage.
+Variables (K1 : 'M[F]_(n, m1)) (K2 : 'M[F]_(n, m2)) (P1 : 'M[F]_n).
+Hypothesis hK1 : K1 *m innov_cov P H1 R1 = P *m H1^T.
+Hypothesis hP1 : P1 = P - K1 *m H1 *m P.
+Hypothesis hK2 : K2 *m innov_cov P1 H2 R2 = P1 *m H2^T.
+
+Lemma two_stage_eq1 :
+  (K1 - K2 *m H2 *m K1) *m innov_cov P H1 R1 + K2 *m (H2 *m P *m H1^T) = P *m H1^T.
+Proof. by rewrite mulmxBl -(mulmxA _ K1) hK1 !mulmxA subrK. Qed.
+
+Lemma two_stage_eq2 :
+  (K1 - K2 *m H2 *m K1) *m (H1 *m P *m H2^T) + K2 *m innov_cov P H2 R2 = P *m H2^T.
+Proof.
+have -> : K2 *m innov_cov P H2 R2 =
+          P1 *m H2^T + K2 *m (H2 *m K1 *m H1 *m P *m H2^T).
+  rewrite -hK2 /innov_cov -mulmxDr hP1; congr (_ *m _).
+  by rewrite mulmxBr mulmxBl !mulmxA addrAC subrK.
+rewrite mulmxBl !mulmxA addrA [X in X + _]addrAC subrK.
+by rewrite hP1 mulmxBl addrC subrK.
+Qed.
+
+Lemma two_stage_mean :
+  (x + K1 *m (z1 - H1 *m x)) + K2 *m (z2 - H2 *m (x + K1 *m (z1 - H1 *m x)))
+  = x + (K1 - K2 *m H2 *m K1) *m (z1 - H1 *m x) + K2 *m (z2 - H2 *m x).
+Proof.
+rewrite [H2 *m (_ + _)]mulmxDr opprD [z2 + _]addrA.
+move: (z1 - H1 *m x) (z2 - H2 *m x) => e1 e2.
+by rewrite mulmxBr mulmxBl !mulmxA !addrA addrAC.
+Qed.
+
+Lemma two_stage_cov :
+  P1 - K2 *m H2 *m P1 = P - (K1 - K2 *m H2 *m K1) *m H1 *m P - K2 *m H2 *m P.
+Proof.
+rewrite hP1 mulmxBr !mulmxBl !mulmxA !opprB !addrA.
+by congr (_ + _); rewrite addrAC.
+Qed.
+
+End TwoStage.
+
+(** The two-stage update, first block 1 then block 2. *)
+Definition seq_P1 : 'M[F]_n := cond_cov P H1 R1.
+Definition seq_x1 : 'cV[F]_n := cond_mean x P z1 H1 R1.
+Definition seq_P2 : 'M[F]_n := cond_cov seq_P1 H2 R2.
+Definition seq_x2 : 'cV[F]_n := cond_mean seq_x1 seq_P1 z2 H2 R2.
+
+Hypothesis uS1 : innov_cov P H1 R1 \in unitmx.
+Hypothesis uS2 : innov_cov seq_P1 H2 R2 \in unitmx.
+Hypothesis uS : innov_cov P H R \in unitmx.
+
+Let hK1 := gain_normal_eq uS1.
+Let hK2 := gain_normal_eq uS2.
+Let hP1 : seq_P1 = P - gain P H1 R1 *m H1 *m P := erefl.
+Let eq1 := two_stage_eq1 (gain seq_P1 H2 R2) hK1.
+Let eq2 := two_stage_eq2 hP1 hK2.
+
+Lemma seq_joint_mean : seq_x2 = cond_mean x P z H R.
+Proof.
+rewrite (joint_mean eq1 eq2 uS).
+by rewrite -(two_stage_mean (gain P H1 R1) (gain seq_P1 H2 R2)).
+Qed.
+
+Lemma seq_joint_cov : seq_P2 = cond_cov P H R.
+Proof.
+rewrite (joint_cov eq1 eq2 uS).
+by rewrite -(two_stage_cov (gain seq_P1 H2 R2) hP1).
+Qed.
+
+End SeqAbstract.
+
+(** The other order: block 2 first, then block 1 -- same joint result. *)
+Section SeqSwap.
+Variable F : fieldType.
+Variables n m1 m2 : nat.
+Variables (x : 'cV[F]_n) (P : 'M[F]_n).
+Variables (z1 : 'cV[F]_m1) (H1 : 'M[F]_(m1, n)) (R1 : 'M[F]_m1).
+Variables (z2 : 'cV[F]_m2) (H2 : 'M[F]_(m2, n)) (R2 : 'M[F]_m2).
+
+Local Notation z := (joint_z z1 z2).
+Local Notation H := (joint_H H1 H2).
+Local Notation R := (joint_R R1 R2).
+Local Notation P1' := (seq_P1 P H2 R2).
+
+Hypothesis uS2 : innov_cov P H2 R2 \in unitmx.
+Hypothesis uS1 : innov_cov P1' H1 R1 \in unitmx.
+Hypothesis uS : innov_cov P H R \in unitmx.
+
+Let hK2 := gain_normal_eq uS2.
+Let hK1 := gain_normal_eq uS1.
+Let hP1 : P1' = P - gain P H2 R2 *m H2 *m P := erefl.
+
+Lemma swap_eq1 :
+  gain P1' H1 R1 *m innov_cov P H1 R1
+  + (gain P H2 R2 - gain P1' H1 R1 *m H1 *m gain P H2 R2) *m (H2 *m P *m H1^T)
+  = P *m H1^T.
+Proof. by rewrite addrC (two_stage_eq2 hP1 hK1). Qed.
+
+Lemma swap_eq2 :
+  gain P1' H1 R1 *m (H1 *m P *m H2^T)
+  + (gain P H2 R2 - gain P1' H1 R1 *m H1 *m gain P H2 R2) *m innov_cov P H2 R2
+  = P *m H2^T.
+Proof. by rewrite addrC (two_stage_eq1 H1 (gain P1' H1 R1) hK2). Qed.
+
+Lemma seq_swap_joint_mean :
+  seq_x2 x P z2 H2 R2 z1 H1 R1 = cond_mean x P z H R.
+Proof.
+rewrite (joint_mean x z1 z2 swap_eq1 swap_eq2 uS) addrAC.
+by rewrite -(two_stage_mean x z2 H2 z1 H1 (gain P H2 R2) (gain P1' H1 R1)).
+Qed.
+
+Lemma seq_swap_joint_cov :
+  seq_P2 P H2 R2 H1 R1 = cond_cov P H R.
+Proof.
+rewrite (joint_cov swap_eq1 swap_eq2 uS) addrAC.
+by rewrite -(two_stage_cov H1 (gain P1' H1 R1) hP1).
+Qed.
+
+End SeqSwap.
+
+(* ------------------------------------------------------------------ *)
+(** * (5) for the generated code *)
+Section SequentialGen.
+Variable F : fieldType.
+Variables n m1 m2 : nat.
+Variable chol1 : 'M[F]_m1 -> 'M[F]_m1.
+Variable chol2 : 'M[F]_m2 -> 'M[F]_m2.
+Variable chol12 : 'M[F]_(m1 + m2) -> 'M[F]_(m1 + m2).
+Variables (x : 'cV[F]_n) (P : 'M[F]_n).
+Variables (z1 : 'cV[F]_m1) (H1 : 'M[F]_(m1, n)) (R1 : 'M[F]_m1).
+Variables (z2 : 'cV[F]_m2) (H2 : 'M[F]_(m2, n)) (R2 : 'M[F]_m2).
+
+Hypothesis sP : P^T = P.
+Hypothesis sR1 : R1^T = R1.
+Hypothesis sR2 : R2^T = R2.
+
+Local Notation z := (col_mx z1 z2).
+Local Notation H := (col_mx H1 H2).
+Local Notation R := (block_mx R1 0 0 R2).
+
+(** the joint update factorises the joint innovation covariance *)
+Hypothesis c12 : cholesky_spec chol12 (correct_S P H R).
+
+Let sR : R^T = R := joint_R_sym sR1 sR2.
+Let uS : innov_cov P (joint_H H1 H2) (joint_R R1 R2) \in unitmx := innov_unit c12.
+
+(** block 1 first, then block 2 *)
+Section Order12.
+Let x1 := correct_ret0 chol1 x P z1 H1 R1.
+Let P1 := correct_ret1 chol1 P H1 R1.
+Hypothesis c1 : cholesky_spec chol1 (correct_S P H1 R1).
+Hypothesis c2 : cholesky_spec chol2 (correct_S P1 H2 R2).
+
+Lemma sequential12 :
+  correct_ret0 chol2 x1 P1 z2 H2 R2 = correct_ret0 chol12 x P z H R /\
+  correct_ret1 chol2 P1 H2 R2 = correct_ret1 chol12 P H R.
+Proof.
+have sP1 : P1^T = P1 by apply: post_symmetric.
+have uS1 := innov_unit c1; have uS2 := innov_unit c2.
+rewrite (correct_mean _ _ sP1 sR2 c2) (correct_cov sP1 sR2 c2).
+rewrite (correct_mean _ _ sP sR c12) (correct_cov sP sR c12).
+rewrite /x1 /P1 (correct_mean _ _ sP sR1 c1) (correct_cov sP sR1 c1).
+rewrite {}/P1 (correct_cov sP sR1 c1) in uS2.
+by rewrite -(seq_joint_mean x z1 z2 uS1 uS2 uS) -(seq_joint_cov uS1 uS2 uS).
+Qed.
+End Order12.
+
+(** block 2 first, then block 1 *)
+Section Order21.
+Let x1 := correct_ret0 chol2 x P z2 H2 R2.
+Let P1 := correct_ret1 chol2 P H2 R2.
+Hypothesis c2 : cholesky_spec chol2 (correct_S P H2 R2).
+Hypothesis c1 : cholesky_spec chol1 (correct_S P1 H1 R1).
+
+Lemma sequential21 :
+  correct_ret0 chol1 x1 P1 z1 H1 R1 = correct_ret0 chol12 x P z H R /\
+  correct_ret1 chol1 P1 H1 R1 = correct_ret1 chol12 P H R.
+Proof.
+have sP1 : P1^T = P1 by apply: post_symmetric.
+have uS2 := innov_unit c2; have uS1 := innov_unit c1.
+rewrite (correct_mean _ _ sP1 sR1 c1) (correct_cov sP1 sR1 c1).
+rewrite (correct_mean _ _ sP sR c12) (correct_cov sP sR c12).
+rewrite /x1 /P1 (correct_mean _ _ sP sR2 c2) (correct_cov sP sR2 c2).
+rewrite {}/P1 (correct_cov sP sR2 c2) in uS1.
+by rewrite -(seq_swap_joint_mean x z1 z2 uS2 uS1 uS) -(seq_swap_joint_cov uS2 uS1 uS).
+Qed.
+End Order21.
+
+End SequentialGen.
